@@ -110,3 +110,27 @@ def _uparr_axiom():
 
 
 AXIOMS = {'uparr': _uparr_axiom}
+
+
+# occ(H, ho, N, no, L, p): the needle N[no..no+L) occurs in H (origin ho) at position p
+occ = z3.Function('occ', IntArr, I, IntArr, I, I, I, B)
+# occrc(H, ho, N, no, L, p): the reverse complement of the needle occurs in H at position p
+occrc = z3.Function('occrc', IntArr, I, IntArr, I, I, I, B)
+
+
+def _occ_axiom():
+	H, N = z3.Const('H', IntArr), z3.Const('N', IntArr)
+	ho, no, L, p, j = z3.Ints('ho no L p j')
+	body = z3.ForAll([j], z3.Implies(z3.And(j >= 0, j < L), z3.Select(H, ho + p + j) == z3.Select(N, no + j)))
+	return z3.ForAll([H, ho, N, no, L, p], occ(H, ho, N, no, L, p) == body, patterns=[occ(H, ho, N, no, L, p)])
+
+
+def _occrc_axiom():
+	H, N = z3.Const('H', IntArr), z3.Const('N', IntArr)
+	ho, no, L, p, j = z3.Ints('ho no L p j')
+	body = z3.ForAll([j], z3.Implies(z3.And(j >= 0, j < L), z3.Select(H, ho + p + j) == comp(z3.Select(N, no + L - 1 - j))))
+	return z3.ForAll([H, ho, N, no, L, p], occrc(H, ho, N, no, L, p) == body, patterns=[occrc(H, ho, N, no, L, p)])
+
+
+AXIOMS['occ'] = _occ_axiom
+AXIOMS['occrc'] = _occrc_axiom
